@@ -32,6 +32,7 @@ func runC03(c *Ctx) {
 	}
 	q := h.Params[2]
 	var execCall, packCall, truncCall *ssa.Call
+	var streamTruncs []*ssa.Call
 	var newCtx *ssa.Call
 	eachInstr(h, func(in ssa.Instruction) {
 		ci, ok := in.(*ssa.Call)
@@ -43,7 +44,12 @@ func runC03(c *Ctx) {
 		case ci.Call.IsInvoke() && ci.Call.Method.Name() == "Exec":
 			execCall = ci
 		case n == "(*github.com/miekg/dns.Msg).Truncate":
-			truncCall = ci
+			// the UDP truncation takes a computed size; the stream one (D34) the constant maximum message size
+			if _, isConst := constInt(ci.Call.Args[1]); isConst {
+				streamTruncs = append(streamTruncs, ci)
+			} else {
+				truncCall = ci
+			}
 		case n == relQctx+".NewContext":
 			newCtx = ci
 		case n == "dynamic" && isParamValue(p, ci.Call.Value, h.Params[len(h.Params)-1]):
@@ -207,19 +213,34 @@ func runC03(c *Ctx) {
 					}
 				}
 			}
-			onErr, onNil := false, false
+			onErr, onNil, onExt, noRespOpt := false, false, false, false
 			for _, g := range lf.guards {
 				if cm, ok := g.asCmp(); ok && cm.X == errV && isNilConst(cm.Y) && cm.Op == token.NEQ {
 					onErr = true
 				}
 				if cm, ok := g.asCmp(); ok && isNilConst(cm.Y) && cm.Op == token.EQL && cm.X != errV {
-					onNil = true
+					if cl, isC := cm.X.(*ssa.Call); isC && callName(cl) == "(*"+relQctx+".Context).RespOpt" {
+						noRespOpt = true
+					} else {
+						onNil = true
+					}
+				}
+				// resp.Rcode > 15 (an extended rcode)
+				if cm, ok := g.asCmp(); ok && cm.Op == token.GTR {
+					if k, isF := loadedField(cm.X); isF && k == "github.com/miekg/dns.MsgHdr.Rcode" {
+						if n, isC := constInt(cm.Y); isC && n == 15 {
+							onExt = true
+						}
+					}
 				}
 			}
 			want := int64(-1)
 			what := "?"
 			if onErr {
 				want, what = 2, "SERVFAIL on the error path"
+			} else if onExt && noRespOpt {
+				// D20: an rcode > 15 needs an OPT; a client without EDNS0 cannot get it (the message cannot even be packed)
+				want, what = 2, "SERVFAIL when an extended rcode cannot be sent (no OPT for this client)"
 			} else if onNil {
 				want, what = 5, "REFUSED when no answer was produced"
 			}
@@ -300,6 +321,42 @@ func runC03(c *Ctx) {
 			}
 			c.check(udp && extra == "" && truncCall.Call.Args[0] == resp, "truncate-iff-udp", instrPos(truncCall), "the packed reply is truncated exactly for UDP queries",
 				"truncation is not tied to exactly 'query arrived over UDP' (extra condition: "+extra+") or does not apply to the reply being packed: some UDP replies exceed the size the client advertised")
+			// stream transports (D34): plugins hand over unpacked, uncompressed messages; Truncate(maximum message size) is
+			// what turns compression on when the message does not fit 65535 bytes without it. It runs exactly when the query
+			// did not come over UDP, on the reply being packed, with the constant 65535, before packing.
+			{
+				good := len(streamTruncs) == 1
+				why := fmt.Sprintf("%d constant-size Truncate calls", len(streamTruncs))
+				if good {
+					st := streamTruncs[0]
+					notUDP, extra2 := false, ""
+					for _, g := range guardsOfInstr(st) {
+						if base[guardKey(g)] {
+							continue
+						}
+						v, truth := g.asBool()
+						if k, _ := loadedField(v); strings.HasSuffix(k, ".QueryMeta.FromUDP") && !truth {
+							notUDP = true
+							continue
+						}
+						extra2 = guardText(g)
+					}
+					n, _ := constInt(st.Call.Args[1])
+					_, packFirst2 := reachAvoiding(packCall, func(x ssa.Instruction) bool { return x == ssa.Instruction(st) }, nil)
+					switch {
+					case !notUDP || extra2 != "":
+						good, why = false, "it does not run exactly for non-UDP queries (extra condition: "+extra2+")"
+					case st.Call.Args[0] != resp:
+						good, why = false, "it is not applied to the reply being packed"
+					case n != 65535:
+						good, why = false, fmt.Sprintf("its size is %d, not the maximum message size 65535", n)
+					case packFirst2:
+						good, why = false, "it runs after packing"
+					}
+				}
+				c.check(good, "stream-reply-fits", h.Pos(), "stream replies are compressed (worst case truncated) to 65535 bytes before packing",
+					"a TCP/DoT/DoQ reply that only fits 65535 bytes when compressed cannot be packed ("+why+"): the client gets no reply and its connection is closed")
+			}
 			// truncation before packing
 			_, packFirst := reachAvoiding(packCall, func(x ssa.Instruction) bool { return x == ssa.Instruction(truncCall) }, nil)
 			c.check(!packFirst, "truncate-before-pack", instrPos(packCall), "packing comes last", "the reply is packed before it is truncated")
